@@ -8,6 +8,28 @@ def nontrivial(prog, f):
     return f['flatten'] >= 1 and f['sub'] >= 1 and f['ops'] >= 4
 
 
+def deep_programs(rng, tier):
+    """a flat graph deeper than min(MAX_GRAPH_DEPTH, 1000) layers: blocks of 100 implicitly sequenced gates on one qubit nested k
+    times, then flattened; only COUNTS are observed (a time query on a chain this long exceeds CPython's recursion limit).
+    Added after the seeded change C11-m6 (the layer bound of the graph walk lowered: `flatten()` silently loses operations)."""
+    import qce_circuit.structure.graph_traversal.intrf_graph_structure as gs
+    bound = min(int(gs.MAX_GRAPH_DEPTH), 1000)
+    out = []
+    for extra in ([100] if tier == 'quick' else [100, 300, 700]):
+        per = 100
+        blocks = (bound + extra + per - 1) // per
+        p = [['new', 'f1'], ['new', 'f1']]
+        for i in range(per):
+            p.append(['op', 1, rng.choice(['Rx180', 'Ry90', 'Hadamard', 'Rx90']), [0], 'M', None, 0, 0, [], None])
+        if rng.random() < 0.5:
+            p.append(['op', 1, 'Barrier', [0, 1], 'A', None, 0, 0, [], None])
+        for _ in range(blocks):
+            p.append(['sub', 0, 1])
+        p += [['ops', 0], ['flatten', 0], ['ops', 0], ['reps', 0], ['flatten', 0], ['ops', 0]]
+        out.append(p)
+    return out
+
+
 SPEC = streamcheck.StreamSpec(
     PROP, probes=['C11', 'C02m'],
     cfg=progs.GenConfig(static_durations=True, n_cmds=(6, 36), p_list=0.05, p_rel=0.0, p_foreign=0.0, p_sub=0.18, p_apply=0.06,
@@ -16,6 +38,7 @@ SPEC = streamcheck.StreamSpec(
     nontrivial=nontrivial,
     pysem=dict(groups=[], effects=True),
     extra_check=libclause.c11_library,
+    extra_programs=deep_programs,
     rule='random IMPLICITLY sequenced build programs (no explicit relations) with nesting and counts; at every flatten: '
          'leaf multiset (kind, qubits, duration strategy, tag, fields) unchanged, no sub-circuit remains, a second '
          'flatten changes neither the listing nor a relation; every listing compared with the model; '
